@@ -172,9 +172,58 @@ Fixpoint ok_reads (st : bytes) (dl pc : nat) (sizes : list nat) (rs : list sres)
   | _, _ => false
   end.
 
+(* -------- which errors the service may see while the sniffed bytes are replayed.
+   [aerr sc k]: the error the raw connection returned *together with* the read
+   whose last byte is byte k of the stream (0 when byte k is not the end of a
+   read result, or came with a nil error).  Errors that came with no bytes at
+   all — a sniff deadline that fired, an EOF — are attached to nothing. *)
+Fixpoint aerr (sc : script) (k : nat) : Z :=
+  match sc with
+  | [] => 0
+  | it :: sc' =>
+      let l := length (it_data it) in
+      if Nat.eqb k 0 then 0
+      else if Nat.eqb l 0 then aerr sc' k
+      else if Nat.ltb k l then 0
+      else if Nat.eqb k l then it_err it
+      else aerr sc' (k - l)
+  end.
+
+(* a read answered from the replay buffer (bytes were withheld: dl < pc) touches
+   the raw connection not at all; it reports no error — except that the read
+   which hands over the last sniffed byte may report the error that came with
+   that byte.  In particular an error consumed during sniffing with no bytes (a
+   deadline expiry followed by more data) is never replayed. *)
+Fixpoint ok_errs (sc : script) (total dl pc : nat) (rs : list sres) : bool :=
+  match rs with
+  | [] => true
+  | SOk d e rem :: rs' =>
+      let consumed := (total - rem)%nat in
+      let dl' := (dl + length d)%nat in
+      (if Nat.ltb dl pc
+       then Z.eqb e 0 || (Nat.eqb dl' consumed && Z.eqb e (aerr sc consumed))
+       else true)
+      && ok_errs sc total dl' consumed rs'
+  | SPanic :: _ => false
+  end.
+
+(* errors of the reads that were answered from the replay buffer *)
+Fixpoint replayed_errs (total dl pc : nat) (rs : list sres) : list Z :=
+  match rs with
+  | [] => []
+  | SOk d e rem :: rs' =>
+      (if Nat.ltb dl pc then [e] else []) ++ replayed_errs total (dl + length d) (total - rem) rs'
+  | SPanic :: _ => []
+  end.
+
+(* every error of the script comes with no bytes (deadline expiries, plain EOF) *)
+Definition data_errfree (sc : script) : bool :=
+  forallb (fun it => is_nil (it_data it) || Z.eqb (it_err it) 0) sc.
+
 Definition ok_service (sc : script) (svc : list nat) (rem0 : nat) (rs : list sres) : bool :=
   Nat.leb rem0 (length (stream sc)) &&
-  ok_reads (stream sc) O (length (stream sc) - rem0) svc rs.
+  ok_reads (stream sc) O (length (stream sc) - rem0) svc rs &&
+  ok_errs sc (length (stream sc)) O (length (stream sc) - rem0) rs.
 
 (* what a matcher saw in one session is a prefix of the stream *)
 Definition rres_data (r : rres) : bytes := match r with ROk d _ => d | RPanic => [] end.
